@@ -444,7 +444,9 @@ def gen_world(src, profile):
             inst = "R"
     world["instance_class"] = inst
     if profile.get("post_copy") and src.chance(1, 4):
-        world["post_copy"] = True
+        # "nested": the hook also sits on the nested classes U and N (it then fires whenever one of them is copied, e.g.
+        # when a default holding one is restored for an invalidated attribute)
+        world["post_copy"] = src.pick([True, "nested", "nested"])
     return world
 
 
@@ -611,11 +613,11 @@ class World:
                 ns[f"_prepare_{name}"] = self._preparer("prepare", name, how)
             for name, how in (c.get("prepare_item") or {}).items():
                 ns[f"_prepare_{SINGULAR[name]}"] = self._preparer("prepare_item", name, how)
-            if desc.get("post_copy") and c["name"] == "M":
+            if (desc.get("post_copy") and c["name"] == "M") or (desc.get("post_copy") == "nested" and c["name"] in ("U", "N")):
                 world = self
 
-                def __post_copy__(self):
-                    world.tick("post_copy", "M")
+                def __post_copy__(self, _name=c["name"]):
+                    world.tick("post_copy", _name)
 
                 ns["__post_copy__"] = __post_copy__
             if c.get("post_init_deepcopy"):
